@@ -411,10 +411,12 @@ def judge(ctx, cfg, ninst, script, horizon, seed, replay, tags=()):
 
 # --------------------------------------------------------------------------------- scenario construction
 def placed(T, pl):
-    return {"d-eps": (T - EPS, BEFORE), "d:before": (T, BEFORE), "d:after": (T, AFTER), "d+eps": (T + EPS, BEFORE)}[pl]
+    # d-res: less than one clock resolution ahead of T - the loop runs the timer that is due at T in that very iteration
+    return {"d-eps": (T - EPS, BEFORE), "d:before": (T, BEFORE), "d:after": (T, AFTER), "d+eps": (T + EPS, BEFORE),
+            "d-res": (T - RES / 2, BEFORE)}[pl]
 
 
-PLACEMENTS = ("d-eps", "d:before", "d:after", "d+eps")
+PLACEMENTS = ("d-eps", "d:before", "d:after", "d+eps", "d-res")
 KINDS = ("ann_stop", "unannounce", "stop_restart", "find_uc", "find_mc", "find_mc_then_stop", "find_uc_and_stop", "stop_and_find_uc",
          "stop_then_find", "lost_then_stop", "double_stop", "find_wild_mc")
 
@@ -445,7 +447,7 @@ def single_scenario(cfg, kind, j, pl):
     d = answer_delay(cfg)
     if kind in ("ann_stop", "unannounce", "stop_restart", "lost_then_stop", "double_stop", "stop_then_find") and j >= 0:
         tags.append({"d-eps": "stops_adjacent", "d+eps": "stops_adjacent", "d:before": "stops_at_instant_before",
-                     "d:after": "stops_at_instant_after"}[pl])
+                     "d:after": "stops_at_instant_after", "d-res": "stops_within_resolution_before_instant"}[pl])
     if kind == "ann_stop":
         script.append((t, rank, dict(kind="ann_stop")))
     elif kind == "unannounce":
